@@ -608,7 +608,8 @@ func cliSetup() {
 		out, _ := syntax.Quote(w.outFile, syntax.LangBash)
 		tf := "version: '3'\nsilent: true\nvars:\n  Y: " + cliTaskfileVarY + "\ntasks:\n" +
 			"  fwd:\n    cmds:\n      - " + strconv.Quote(rec+" __record "+out+" {{.CLI_ARGS}}") + "\n" +
-			"  var:\n    cmds:\n      - " + strconv.Quote(rec+" __record "+out+" {{shellQuote .X}} {{q .X}}") + "\n"
+			"  var:\n    cmds:\n      - " + strconv.Quote(rec+" __record "+out+" {{shellQuote .X}} {{q .X}}") + "\n" +
+			"  default:\n    cmds:\n      - " + strconv.Quote(rec+" __record "+out+" {{shellQuote .X}} {{q .X}}") + "\n"
 		if err := os.WriteFile(filepath.Join(w.dir, "Taskfile.yml"), []byte(tf), 0o644); err != nil {
 			panic(err)
 		}
@@ -987,6 +988,9 @@ func runCliArgs(c *Ctx) {
 	add("var", []string{"var", "X=1", "X=\x01\xfe'"}, -1)
 	add("var", []string{"var", "X=v", "ignored"}, 2)
 	add("var", []string{"var", "X=a<no value>b"}, -1)
+	add("var", []string{"X=only an assignment"}, -1)
+	add("var", []string{"A=1", "X=two assignments, no task name"}, -1)
+	add("var", []string{"X=v", "after the dash"}, 1)
 	add("fwd", []string{"fwd", "{{.Y}}", "it's"}, 1)
 	// --init corpus: no argument, directory, file, extension only, existing file, after `--`
 	for _, ic := range []struct {
@@ -1047,6 +1051,13 @@ func runCliArgs(c *Ctx) {
 		case 1:
 			argv = []string{"var", "X=first", argv[1]}
 			c.Hit("var:reassigned")
+		case 2:
+			// no task name at all: the assignment is not a task name, the `default` task (same command as `var`) runs
+			argv = []string{argv[1]}
+			if c.Rng.Intn(2) == 0 {
+				argv = []string{"W=other", argv[0]}
+			}
+			c.Hit("var:no-task-name")
 		}
 		add("var", argv, -1)
 		c.Hit("var")
